@@ -78,6 +78,23 @@ def run(ctx):
     r.require_min(6)
 
     # ---------------- R15b
+    r = ctx.rule('R15h', 'decode / reconstruct / fragments_needed never store into the arrays the caller passes as input (the fragment list, the index lists)',
+                 'the list of fragments is the caller\'s: compacting it in place loses pointers the caller still has to free and faults on a read-only list')
+    for fname, pnames in (('liberasurecode_decode', ('available_fragments',)), ('liberasurecode_reconstruct_fragment', ('available_fragments',)),
+                          ('liberasurecode_fragments_needed', ('fragments_to_reconstruct', 'fragments_to_exclude'))):
+        for pname in pnames:
+            fx, pix = shared.param_by_name(ctx, P, fname, pname)
+            Ax, _ = derived_pointers(fx, [fx.params[pix][1]])
+            # direct element pointers only: what the elements point to is covered by R15a / R09c
+            wr = [i for i in fx.insts() if (i.op == 'store' and i.ops[1] in Ax) or
+                  (i.op == 'call' and (i.callee or '').startswith(('@llvm.memcpy', '@llvm.memset', '@llvm.memmove')) and i.ops[0] in Ax)]
+            inst = f'{fname}: no store into {pname}[]'
+            if wr:
+                r.fail(inst, func=fx.name, sig=f'store into the input array {pname}', loc=wr[0].loc,
+                       msg=f'{fname} writes into the caller\'s {pname} array (line {wr[0].line}): an input is modified')
+            else:
+                r.ok(inst, func=fx.name, loc=fx.mod.src)
+    r.require_min(4)
     r = ctx.rule('R15b', 'prepare_fragments_for_decode never frees or writes through caller fragments; it only replaces array slots',
                  'the caller still owns (and later frees / reuses) the buffers it passed in')
     f = P.fn('prepare_fragments_for_decode')
